@@ -1,0 +1,11 @@
+//go:build verif
+
+package frugal
+
+import "sync/atomic"
+
+// Pure re-export for the verification harness (build tag `verif` only).
+
+// VerifCtx09OpIDCounter returns the current value of the process-wide op id
+// counter (the last id handed out by getNextOpID).
+func VerifCtx09OpIDCounter() uint64 { return atomic.LoadUint64(&nextOpID) }
